@@ -131,6 +131,33 @@ def hostile_ledger(rng, extreme):
     return txs
 
 
+def big_echo_ledger(rng):
+    """Extreme amounts that the calculation itself survives (so the formatters get to print them): a small GBP holding
+    plus DIVIDEND / ACCUMULATION / CAPRETURN lines whose totals are 28-29 digit figures in currencies with 0, 2, 3 and 4
+    minor units and an HMRC rate above 1 (the division cannot overflow). Found by hand after a sub-agent's remark: the
+    text report padded such a figure to three decimals in a 32-byte buffer (F21)."""
+    D = dt.date(rng.choice([2019, 2020, 2022]), rng.randint(1, 12), rng.randint(1, 28))
+    txs = [{"date": iso(D), "ticker": "A", "kind": "BUY", "amount": "10", "price": ["1", "GBP"], "fees": ["0", "GBP"]}]
+    for _ in range(rng.randint(1, 3)):
+        D += dt.timedelta(days=rng.randint(1, 40))
+        cur = rng.choice(["TND", "LYD", "IQD", "JPY", "USD", "INR", "BHD", "KWD", "CLF", "GBP"])
+        big = rng.choice(["79228162514264337593543950335", "7922816251426433759354395033.5", "10000000000000000000000000000",
+                          "9999999999999999999999999999", "999999999999999999999999999.99", "1000000000000000000000000"])
+        k = rng.choice(["DIVIDEND", "ACCUMULATION", "CAPRETURN"])
+        t = {"date": iso(D), "ticker": "A", "kind": k}
+        if k == "DIVIDEND":
+            t.update(total=[big, cur], tax=[rng.choice(["0", big]), cur])
+        elif k == "ACCUMULATION":
+            t.update(amount="10", total=[big, cur], tax=["0", "GBP"])
+        else:
+            t.update(amount="10", total=["1", "GBP"], fees=["0", "GBP"])
+            txs.append({"date": iso(D), "ticker": "A", "kind": "DIVIDEND", "total": [big, cur], "tax": ["0", cur]})
+        txs.append(t)
+    if rng.random() < 0.5:
+        txs.append({"date": iso(D + dt.timedelta(days=50)), "ticker": "A", "kind": "SELL", "amount": "5", "price": ["1", "GBP"], "fees": ["0", "GBP"]})
+    return txs
+
+
 def panic_signature(p, regime):
     msg = p.get("message", "")
     loc = p.get("location", "")
@@ -205,6 +232,11 @@ def run_hostile(desc, extreme):
         c = lc.calc_case(txs, fx=rng.choice(["bundled", None]), exemptions=rng.choice(["embedded", lc.ALL_YEARS]),
                          year=rng.choice([None, None, 2020, 1900, 2100, 0, 99999, -5]))
         c["outputs"] = rng.choice([[], ["plain"], ["plain", "json"], ["pdf_runs"] if rng.random() < 0.2 else []])
+        if extreme and rng.random() < 0.1:
+            txs = big_echo_ledger(rng)
+            c = lc.calc_case(txs, fx="bundled", exemptions=lc.ALL_YEARS)
+            c["outputs"] = rng.choice([["plain", "json"], ["plain"], ["pdf_runs"]])
+            cnt["big_echo_ledgers(extreme totals the calculation survives)"] += 1
         cases.append(c)
         if rng.random() < 0.3:
             cases.append({"op": "validate", "txs": txs})
